@@ -270,6 +270,89 @@ def validate_sync(work, name, recs, nw):
     return True, 0, res.distinct
 
 
+
+HOOK_OBSERVE = {"coll.snapshot", "coll.get", "persister.begin"}
+HOOK_ACTIONS = {"exec.push", "merger.ingest", "merger.swap", "merger.skip", "merger.handoff", "merger.handoffskip", "persister.swap",
+                "coll.close.begin", "coll.close.end"}
+
+
+# measured hook events per test: these four produce 4.07 M, 431 k, 198 k and 102 k; all the others together about 12 k
+HEAVY_TESTS = "TestCompactionWithAndWithoutRegularSync|TestSegmentKindBasicWithAndWithoutIndex|TestMossDGM|Test_DGMLoad"
+
+
+def repo_tests_trace(rep, work, regex, timeout=1500, skip_heavy=False):
+    """Direction B over the repository's own tests: run them with -tags verif and the recording
+    test helper, then let TLC check every hook event of every collection they create against
+    TraceHooks (the section dynamics MossColl specifies).  Returns the number of events validated."""
+    tdir = os.path.join(work, "repotests")
+    os.makedirs(tdir, exist_ok=True)
+    env = dict(vlib.GOENV, VERIF_TRACE_DIR=tdir)
+    env.pop("CGO_ENABLED", None)
+    # two tests assign the collection's sections directly (white-box), which is not a behaviour of the library
+    p = subprocess.run(["go", "test", "-tags", "verif", "-vet=off", "-count=1", "-timeout", "25m", "-run", regex,
+                        "-skip", "TestIteratorMergeOps_MB19667|TestPersistMergeOps_MB19667" + ("|" + HEAVY_TESTS if skip_heavy else ""), "."],
+                       cwd=vlib.REPO, env=env, capture_output=True, text=True, timeout=timeout)
+    if p.returncode != 0 and "ok" not in p.stdout:
+        log("repository tests (tag verif) did not pass; their traces are validated anyway:\n" + (p.stdout + p.stderr)[-600:])
+    recs = []
+    ncoll = 0
+    for fn in sorted(os.listdir(tdir)):
+        if not fn.endswith(".ndjson"):
+            continue
+        base = ncoll
+        seen = {}
+        with open(os.path.join(tdir, fn)) as f:
+            for line in f:
+                try:
+                    e = json.loads(line)
+                except ValueError:
+                    continue
+                cid = e["c"]
+                if cid not in seen:
+                    seen[cid] = base + len(seen) + 1
+                    ncoll = max(ncoll, seen[cid])
+                    mp = e.get("maxpre", 10)
+                    if mp <= 0:
+                        mp = 10
+                    recs.append({"ev": "new", "c": seen[cid], "top": -1, "mid": -1, "base": -1, "clean": -1, "closed": False, "maxpre": min(mp, 1000000)})
+                pt = e["point"]
+                if pt in HOOK_ACTIONS:
+                    ev = pt
+                elif pt in HOOK_OBSERVE:
+                    ev = "observe"
+                else:
+                    continue
+                recs.append({"ev": ev, "c": seen[cid], "top": e["top"], "mid": e["mid"], "base": e["base"], "clean": e["clean"],
+                             "closed": e["closed"], "maxpre": 0})
+    if not recs:
+        raise Infra("the repository tests produced no hook trace (is the verif test helper in place?)")
+    resyncs = []
+    states = 0
+    for attempt in range(12):
+        tf = os.path.join(work, "hooks.ndjson")
+        with open(tf, "w") as f:
+            for r in recs:
+                f.write(json.dumps(r) + "\n")
+        cfg = os.path.join(work, "hooks.cfg")
+        vlib.write_cfg(cfg, {"TraceFile": '"%s"' % tf, "MaxColl": str(max(1, ncoll))}, init="HInit", next_="HNext",
+                       invariants=["Mark", "TopBounded", "Shape"], postcondition="Accepted")
+        try:
+            res = vlib.run_tlc("TraceHooks.tla", cfg, work, workers=1, timeout=900)
+            out, st = res.out, res.distinct
+        except Infra as e:
+            out, st = str(e), 0
+        m = re.search(r'"REJECTED-AT", (\d+)', out)
+        states = max(states, st)
+        if not m:
+            break
+        at = int(m.group(1))
+        bad = recs[at - 1]
+        resyncs.append({"event": at, "record": bad})
+        # re-synchronise the specification with what the hook reports and go on with the rest of the trace
+        recs.insert(at - 1, dict(bad, ev="resync"))
+    return len(recs), states, resyncs
+
+
 SYNC_BASE = {"NWriters": "2", "MaxBatches": "2", "MaxPre": "1", "PingCap": "1", "NNotifiers": "1", "SyncNotify": "FALSE",
              "HasLL": "TRUE", "MaxLLFails": "1", "WithClose": "TRUE", "Devs": "{}"}
 
@@ -406,6 +489,20 @@ def c16(tier):
         for t, v in tests.items():
             if not v:
                 rep.infra.append("binding self-test failed: %s" % t)
+    # (d) the repository's own tests, recorded with the tracer on, validated against TraceHooks
+    regex = "."
+    nev, st, resyncs = repo_tests_trace(rep, work, regex, skip_heavy=q)
+    rep.states += st
+    rep.transitions += st
+    rep.extra["repo_tests_trace"] = {"tests": "all except the two white-box tests that assign the sections directly" + (" and the bulk-load tests (%s)" % HEAVY_TESTS if q else ""),
+                                     "hook_events_validated": nev, "unexplained_events": resyncs[:10]}
+    for r in resyncs:
+        os.makedirs(os.path.join(vlib.VERIF, "evidence", "replays"), exist_ok=True)
+        keep = os.path.join(vlib.VERIF, "evidence", "replays", "C16-repotest-event%d.json" % r["event"])
+        json.dump(r, open(keep, "w"))
+        rep.violations.append(("a hook event of the repository's own tests is not a step of the section dynamics of MossColl (TraceHooks): %s" % json.dumps(r["record"]), keep))
+    if not resyncs:
+        rep.traces += 1
     rep.assumptions = ["TLC (safety and liveness under weak fairness of every process step) and the CommunityModules Json module",
                        "a call counts as not returning when it is still pending 20 s after the run should have ended, or 3 s after the gated scenario, while the lower level makes progress",
                        "the ping channel capacity (10 in the code) is a constant of the specification (1 or 2 in the configurations); the gated scenario uses the code's value"]
